@@ -202,7 +202,9 @@ protected:
       }
     }
 
+    // The end mark is replaced by the terminator and is not part of the string
     strCurr[lenCurr - 1] = 0;
+    lenCurr--;
   }
 };
 
